@@ -3,6 +3,7 @@
 import ast
 
 from ..project import AnalysisError, loc, norm_stmt
+from ..rules import misc_rules as MI
 from ..rules import fsa_rules as F
 from ..rules import cache_rules as CA
 from ..rules import sibling_rules as SI
@@ -64,6 +65,7 @@ def run(ctx):
     ctx.do(SI.rule_fk1, [SI.FSA])
     ctx.do(SI.rule_bfs1)
     ctx.do(SI.rule_dv1)
+    ctx.do(MI.rule_bfs3)
     ctx.do(SI.rule_bfs2)
     ctx.do(SI.rule_acc1, [SI.FSA])
     ctx.do(u1, ENTRIES, min_functions=12)
